@@ -811,6 +811,9 @@ def loop_as_comprehension(loop: ast.For, result: str):
             body = body[1:]
             continue
         break
+    # appends to *other* lists filled by the same loop do not concern this result
+    body = [b for b in body if not (isinstance(b, ast.Expr) and isinstance(b.value, ast.Call) and isinstance(b.value.func, ast.Attribute) and b.value.func.attr == "append"
+                                    and isinstance(b.value.func.value, ast.Name) and b.value.func.value.id != result and b.value.func.value.id not in env)]
     if len(body) != 1 or not isinstance(body[0], ast.Expr) or not isinstance(body[0].value, ast.Call):
         return None
     c = body[0].value
